@@ -45,6 +45,8 @@ pub struct Menu {
     /// may the caller give up waiting in Await100 while undecided?
     pub allow_giveup: bool,
     pub stop_boundary: bool,
+    /// absolute stream offsets the arrival cursor may jump to (coarse arrival alphabets for long streams)
+    pub arrive_to: Vec<usize>,
 }
 
 impl Menu {
@@ -58,6 +60,7 @@ impl Menu {
             arrive: vec![usize::MAX],
             allow_giveup: true,
             stop_boundary: false,
+            arrive_to: vec![],
         }
     }
 }
@@ -77,6 +80,8 @@ pub struct ExchCfg {
     pub layout: Vec<(usize, usize, usize, Gate)>,
     pub ref_head: Vec<u8>,
     pub req_chunked: bool,
+    /// explore from this flow state on (reached along the canonical schedule) instead of SendRequest
+    pub start_at: Option<&'static str>,
 }
 
 impl ExchCfg {
@@ -103,7 +108,7 @@ impl ExchCfg {
         let eff_has = |name: &str| req.added.iter().chain(req.orig.iter()).any(|(k, _)| k.eq_ignore_ascii_case(name));
         let te_chunked = req.added.iter().chain(req.orig.iter()).any(|(k, v)| k.eq_ignore_ascii_case("transfer-encoding") && v.eq_ignore_ascii_case(b"chunked"));
         let req_chunked = te_chunked || !eff_has("content-length");
-        Ok(ExchCfg { prop, req, body, server, trailing, menu, stream, layout, ref_head, req_chunked })
+        Ok(ExchCfg { prop, req, body, server, trailing, menu, stream, layout, ref_head, req_chunked, start_at: None })
     }
 
     pub fn to_json(&self) -> Value {
@@ -132,6 +137,7 @@ impl ExchCfg {
 #[derive(Clone, Debug, PartialEq, Eq)]
 pub enum Act {
     Arrive(usize),
+    ArriveTo(usize),
     HeadWrite(usize),
     BodyWrite(usize, usize),
     Direct(usize),
@@ -146,6 +152,7 @@ impl Act {
     pub fn to_json(&self) -> Value {
         match self {
             Act::Arrive(k) => json!(["arrive", if *k == usize::MAX { -1i64 } else { *k as i64 }]),
+            Act::ArriveTo(k) => json!(["arrive_to", k]),
             Act::HeadWrite(b) => json!(["head_write", b]),
             Act::BodyWrite(i, b) => json!(["body_write", if *i == usize::MAX { -1i64 } else { *i as i64 }, b]),
             Act::Direct(k) => json!(["direct_write", k]),
@@ -166,6 +173,7 @@ impl Act {
         };
         Ok(match v[0].as_str().ok_or("act")? {
             "arrive" => Act::Arrive(us(&v[1])),
+            "arrive_to" => Act::ArriveTo(us(&v[1])),
             "head_write" => Act::HeadWrite(us(&v[1])),
             "body_write" => Act::BodyWrite(us(&v[1]), us(&v[2])),
             "direct_write" => Act::Direct(us(&v[1])),
@@ -206,7 +214,8 @@ type R = Result<(), (String, String)>;
 impl Exch {
     pub fn new(cfg: Arc<ExchCfg>) -> Result<Exch, String> {
         let f = cfg.req.build_prepare()?;
-        Ok(Exch {
+        let start = cfg.start_at;
+        let mut e = Exch {
             cfg,
             flow: AnyFlow::SendRequest(f.proceed()),
             arrived: 0,
@@ -222,7 +231,61 @@ impl Exch {
             through_redirect: false,
             redirect_verdict: None,
             body_entered: false,
-        })
+        };
+        if let Some(st) = start {
+            e.fast_forward(st)?;
+        }
+        Ok(e)
+    }
+
+    /// Drive the exchange along the canonical schedule (everything arrived, large buffers) until
+    /// the flow is in the state named `until` (e.g. "RecvBody"); all oracles apply on the way.
+    pub fn fast_forward(&mut self, until: &str) -> Result<(), String> {
+        let mut guard = 0;
+        while self.flow.name() != until {
+            guard += 1;
+            if guard > 200 {
+                return Err(format!("fast_forward: did not reach {} (stuck in {})", until, self.flow.name()));
+            }
+            let act = match &self.flow {
+                AnyFlow::SendRequest(f) => if f.can_proceed() { Act::Proceed } else { Act::HeadWrite(16384) },
+                AnyFlow::Await100(f) => {
+                    if !f.can_keep_await_100() {
+                        Act::Proceed
+                    } else if self.arrived < self.avail() {
+                        Act::Arrive(usize::MAX)
+                    } else if self.arrived > self.consumed {
+                        Act::Read100
+                    } else {
+                        Act::GiveUp
+                    }
+                }
+                AnyFlow::SendBody(f) => if f.can_proceed() { Act::Proceed } else { Act::BodyWrite(usize::MAX, 65536) },
+                AnyFlow::RecvResponse(f) => {
+                    if f.can_proceed() {
+                        Act::Proceed
+                    } else if self.arrived < self.layout_head_end() {
+                        Act::ArriveTo(self.layout_head_end())
+                    } else {
+                        Act::TryResponse
+                    }
+                }
+                AnyFlow::RecvBody(f) => if f.can_proceed() { Act::Proceed } else if self.arrived < self.avail() { Act::Arrive(usize::MAX) } else { Act::Read(65536) },
+                AnyFlow::Redirect(_) => Act::Proceed,
+                _ => return Err(format!("fast_forward: cannot leave {}", self.flow.name())),
+            };
+            let before = Sys::key(self);
+            self.step(&act).map_err(|(k, w)| format!("fast_forward: [{}] {}", k, w))?;
+            if Sys::key(self) == before {
+                return Err(format!("fast_forward: canonical action {:?} made no progress in {}", act, self.flow.name()));
+            }
+        }
+        Ok(())
+    }
+
+    /// end of the head of the message currently pending
+    fn layout_head_end(&self) -> usize {
+        self.cfg.layout.get(self.msg_idx).map(|(s, h, _, _)| s + h).unwrap_or(self.cfg.stream.len())
     }
 
     fn k(&self, site: &str, class: &str) -> String {
@@ -714,6 +777,11 @@ impl Sys for Exch {
                         v.push(Act::Arrive(k));
                     }
                 }
+                for &t in &m.arrive_to {
+                    if t > self.arrived && t <= self.avail() {
+                        v.push(Act::ArriveTo(t));
+                    }
+                }
             }
         };
         match &self.flow {
@@ -809,6 +877,12 @@ impl Sys for Exch {
                 self.arrived += (*k).min(room);
                 Ok(())
             }
+            Act::ArriveTo(t) => {
+                if *t > self.arrived && *t <= self.avail() {
+                    self.arrived = *t;
+                }
+                Ok(())
+            }
             Act::HeadWrite(b) => self.step_head_write(*b),
             Act::BodyWrite(i, b) => self.step_body_write(*i, *b),
             Act::Direct(k) => self.step_direct(*k),
@@ -825,6 +899,11 @@ impl Sys for Exch {
             return Err((self.k("harness", "cursors"), "consumed > arrived".into()));
         }
         self.queries_pure()?;
+        if let AnyFlow::RecvBody(f) = &self.flow {
+            if self.cfg.expected_framing() == Framing::Close && !f.can_proceed() {
+                return Err((self.k("recv-body", "close-delimited-not-proceedable"), "close-delimited body: the flow must be able to proceed at any time but can_proceed() is false".into()));
+            }
+        }
         // readiness query agrees with advancing (on a clone, so the search continues from here)
         if let Some(can) = self.flow.can_proceed() {
             let adv = match self.flow.clone().proceed() {
